@@ -1,13 +1,14 @@
 package main
 
 import (
-	"os"
 	"bytes"
 	"context"
 	"fmt"
+	"os"
 	"os/exec"
 	"strings"
 	"sync"
+	"sync/atomic"
 	"time"
 )
 
@@ -139,15 +140,23 @@ func solveBatch1(c *FnCtx, obls []*Obligation, timeoutMs int) {
 			solveOne(c, o, timeoutMs)
 			// no solver decided it within the budget: before this is reported, give it one longer
 			// attempt (a loaded machine must not turn a 2 s proof into an alarm)
-			if o.Status != "sat" && o.Status != "unsat" && timeoutMs < 30000 {
+			if o.Status != "sat" && o.Status != "unsat" && timeoutMs < 30000 && atomic.AddInt32(&retriesLeft, -1) >= 0 {
 				o.Status, o.Model = "", ""
 				solveOne(c, o, timeoutMs*6)
-				o.Note += " (decided only on the retry with a 6x budget)"
+				if o.Status == "sat" || o.Status == "unsat" {
+					o.Note += " (decided only on the retry with a 6x budget)"
+				} else {
+					o.Note += " (undecided also with a 6x budget)"
+				}
 			}
 		}(o)
 	}
 	wg.Wait()
 }
+
+// retriesLeft: how many undecided obligations of one run get the longer second attempt (a change that
+// leaves many obligations undecided must not make the quick check slow)
+var retriesLeft int32 = 6
 
 // solveOne races the three solvers on one obligation; the first definitive
 // answer (sat / unsat) wins and the others are cancelled.
@@ -295,7 +304,6 @@ func firstLine(s string) string {
 	return s
 }
 
-
 // parseValues reads a (get-value ...) answer: ((term value) ...)
 func parseValues(out string, names, terms []string) map[string]string {
 	res := map[string]string{}
@@ -334,7 +342,6 @@ func parseValues(out string, names, terms []string) map[string]string {
 	return res
 }
 
-
 func inlineIx(q string) string {
 	var b strings.Builder
 	for _, l := range strings.Split(q, "\n") {
@@ -346,7 +353,6 @@ func inlineIx(q string) string {
 	}
 	return b.String()
 }
-
 
 // stripAssumedForalls replaces (forall ...) subterms inside the path-condition definitions
 // (define-fun |R...|) by true.
